@@ -27,8 +27,12 @@ ENGINES = {
 }
 
 
+# engines that only model-check the specification do not depend on the library sources
+REPO_INDEPENDENT = {'EM'}
+
+
 def run_engine(name, tier, seed):
-    h = lib.tree_hash()
+    h = lib.tree_hash(with_repo=(name not in REPO_INDEPENDENT))
     cache_dir = config.workdir('cache')
     path = os.path.join(cache_dir, '%s-%s-%s-%s.json' % (name, tier, seed, h[:24]))
     if os.environ.get('VERIF_NO_CACHE') != '1' and os.path.exists(path):
@@ -43,13 +47,14 @@ def run_engine(name, tier, seed):
     res['wall'] = time.time() - t0
     res['tree'] = h
     res['cached'] = False
-    # keep the cache small: drop results of other trees for this engine/tier
-    for old in os.listdir(cache_dir):
-        if old.startswith('%s-%s-' % (name, tier)) and not old.endswith(h[:24] + '.json'):
-            try:
-                os.remove(os.path.join(cache_dir, old))
-            except OSError:
-                pass
+    # keep the cache small: at most three results per engine and tier (newest first)
+    olds = sorted((f for f in os.listdir(cache_dir) if f.startswith('%s-%s-' % (name, tier))),
+                  key=lambda f: os.path.getmtime(os.path.join(cache_dir, f)), reverse=True)
+    for old in olds[2:]:
+        try:
+            os.remove(os.path.join(cache_dir, old))
+        except OSError:
+            pass
     with open(path, 'w') as handle:
         json.dump(res, handle)
     return res
